@@ -93,6 +93,9 @@ def check(case, rec):
         rec.label('rejected:' + type(res['error']).__name__)
         return
     rec.stat('programs_accepted')
+    if not any(not isinstance(call, dict) for calls in prog['sessions'] for call in calls):
+        rec.label('no_segment_written')     # nothing was written: there is no TDMS file to read
+        return
     rec.nontrivial(nontrivial(prog))
     rec.label('dest=' + prog['dest'], 'index=%s' % prog['index'], 'sessions=%d' % len(prog['sessions']))
     model = res['model']
